@@ -22,6 +22,7 @@ type Env struct {
 	obs  *bufio.Writer
 	fops *os.File
 	fobs *os.File
+	cur  []string // op lines since the last `.reset` op (replay of a crash, see crash.go)
 
 	Report Report
 }
@@ -111,6 +112,13 @@ func (e *Env) Op(op string, obs string) {
 	e.obs.WriteString(obs)
 	e.obs.WriteByte('\n')
 	e.Report.Ops++
+	opSeq++
+	if strings.HasSuffix(op, ".reset") || strings.Contains(op, ".reset ") {
+		e.cur = e.cur[:0]
+	}
+	if len(e.cur) < 4000 {
+		e.cur = append(e.cur, op)
+	}
 	name := op
 	if i := strings.IndexByte(op, ' '); i > 0 {
 		name = op[:i]
